@@ -212,7 +212,8 @@ def axioms_of(text):
     blocks = text.split("Axioms:")
     for blk in blocks[1:]:
         for line in blk.splitlines():
-            m = re.match(r"^([A-Za-z_][A-Za-z0-9_.']*)\s*:", line)
+            # the type may start on the next (indented) line for long names
+            m = re.match(r"^([A-Za-z_][A-Za-z0-9_.']*)\s*(:|$)", line)
             if m:
                 ax.add(m.group(1))
             elif line.strip().startswith("Closed under"):
